@@ -675,6 +675,16 @@ def go_vet(cwd, pkgs=("./...",), tags=None, timeout=900):
     return run(cmd, cwd=cwd, env=scratch_env(), timeout=timeout)
 
 
+def go_compile(cwd, pkgs=("./...",), tags=None, timeout=900):
+    """Parse + type-check + compile packages including their test files, running nothing and no vet
+    analyzers: the toolchain as validity oracle (`go test -run ^$ -vet=off`)."""
+    cmd = ["go", "test", "-count=1", "-run", "^$", "-vet=off"]
+    if tags:
+        cmd += ["-tags", tags]
+    cmd += list(pkgs)
+    return run(cmd, cwd=cwd, env=scratch_env(), timeout=timeout)
+
+
 def go_cmd(args, cwd, timeout=900, env_extra=None):
     return run(["go"] + list(args), cwd=cwd, env=scratch_env(env_extra), timeout=timeout)
 
